@@ -327,11 +327,11 @@ impl Walrus {
                 }
                 let mut aligned = rkyv::AlignedVec::with_capacity(meta_len);
                 aligned.extend_from_slice(&meta_buf[2..2 + meta_len]);
-                // SAFETY: `aligned` was constructed from a bounded metadata slice
-                // read from our file; alignment is ensured by `AlignedVec`.
-                // SAFETY: `aligned` is built from bounded bytes inside the block,
-                // copied into `AlignedVec` ensuring alignment for rkyv.
-                let archived = unsafe { rkyv::archived_root::<Metadata>(&aligned[..]) };
+                // The bytes come from disk and may be damaged: validate the archive.
+                let archived = match rkyv::check_archived_root::<Metadata>(&aligned[..]) {
+                    Ok(a) => a,
+                    Err(_) => break,
+                };
                 let md: Metadata = match archived.deserialize(&mut rkyv::Infallible) {
                     Ok(m) => m,
                     Err(_) => {
